@@ -10,6 +10,7 @@ import (
 	"os"
 
 	"verifharness/apph"
+	"verifharness/evmh"
 	"verifharness/ledgerh"
 	"verifharness/preimage"
 	"verifharness/signer"
@@ -59,6 +60,20 @@ func main() {
 		writeStats(*stats, map[string]interface{}{"vectors": st, "probe": preimage.Probe(*seed, *n)})
 	case "app":
 		st, err := apph.GenerateCases(*seed, *n, *blocks, *out, *scratch, *jsonOut, *profile, *evals)
+		if err != nil {
+			fmt.Fprintln(os.Stderr, "error:", err)
+			os.Exit(3)
+		}
+		writeStats(*stats, st)
+	case "evmtx":
+		st, err := apph.EvmRun(*seed, *n, *scratch)
+		if err != nil {
+			fmt.Fprintln(os.Stderr, "error:", err)
+			os.Exit(3)
+		}
+		writeStats(*stats, st)
+	case "evmwrap":
+		st, err := evmh.Generate(*seed, *n, *out, *scratch, *jsonOut)
 		if err != nil {
 			fmt.Fprintln(os.Stderr, "error:", err)
 			os.Exit(3)
